@@ -242,7 +242,7 @@ class C18(Spec):
             data = make_file(*fp)
             batch.append((fp, data, tuple(random_ops(ctx.rng, n, ctx.rng.randint(3, 40 if ctx.quick else 400)))))
         # large files and large requests (more than one 8192-frame library block per read / iteration block)
-        big = [(16, 1, 20000, False), (24, 2, 17000, True), (32, 3, 8193, False), (16, 2, 16384, False)]
+        big = [(16, 1, 20000, False), (24, 2, 17000, True), (32, 3, 8193, False), (24, 2, 16384, False)]
         sizes = [8191, 8192, 8193, 11000, 12000, 16384, 16385, 20000]
         for fp in (big if not ctx.quick else [big[ctx.seed % len(big)], big[(ctx.seed + 1) % len(big)]]):
             data = make_file(*fp)
